@@ -342,7 +342,7 @@ theorem attemptsAtomicB_sound (log : Log) (h : attemptsAtomicB log = true) : Att
 /-- Reconnect rate limit — for EVERY accepted run in which attempts do not interleave (`AttemptsAtomic`, the effect of
 `accessLock`; monitored on the implementation): a connect attempt made on behalf of a communicate call comes at least
 the reconnect interval after EVERY earlier attempt, of whatever origin (up to the clock slack). -/
-theorem reconnect_rate_limited (cfg : Cfg) (cbs : List Nat) (evs : List TEv) (hacc : Accepted cfg cbs evs) (hid : cfg.ident = [])
+theorem reconnect_rate_limited (cfg : Cfg) (cbs : List Nat) (evs : List TEv) (hacc : Accepted cfg cbs evs)
     (hat : AttemptsAtomic evs) (i j : Nat) (hij : i < j) (hci : connectAt evs i ≠ none) (hcj : connectAt evs j = some true) :
     timeAt evs i + cfg.interval ≤ timeAt evs j + 2 * cfg.slack := by
   unfold Accepted at hacc
@@ -358,7 +358,7 @@ theorem reconnect_rate_limited (cfg : Cfg) (cbs : List Nat) (evs : List TEv) (ha
       cases hv : ej.ev <;> simp only [hv] at hcj <;> try (simp at hcj)
       subst hcj; exact ⟨_, _, rfl⟩
     obtain ⟨sk, sk', hpre, hst⟩ := exec_cut _ evs j ej hej sf hex
-    have ht := tinv_exec cfg cbs (evs.take j) sk hid hpre
+    have ht := tinv_exec cfg cbs (evs.take j) sk hpre
     have hlen : (evs.take j).length = j := by simp; omega
     have hclk : sk.clock ≤ ej.t := by
       unfold step at hst; split at hst
@@ -373,7 +373,7 @@ theorem reconnect_rate_limited (cfg : Cfg) (cbs : List Nat) (evs : List TEv) (ha
       have hfl : flight (sk.callers x) = true := by
         have hk := hkind rfl
         simp only at hpc hk
-        simp [flight, hpc, hk]
+        simp [flight, flightPc, hpc, hk]
       obtain ⟨p, q, hpq, hql, hpe, hno, hconn⟩ := ht.a5 x hfl
       rw [hlen] at hql
       rcases Nat.lt_or_ge i q with hiq | hqi
@@ -637,8 +637,8 @@ theorem fails_within_timeout_run (cfg : Cfg) (cbs : List Nat) (evs : List TEv) (
     have hv : eu.ev = .recv c .empty := by simpa [evAt, heu] using hu
     obtain ⟨sk, sk', hpre, hst⟩ := exec_cut _ evs u eu heu sf hex
     have hr := rinv_exec cfg cbs (evs.take u) sk hpre
-    have he := einv_exec cfg cbs (evs.take u) sk hid hpre
-    have ht := tinv_exec cfg cbs (evs.take u) sk hid hpre
+    have he := einv_exec cfg cbs (evs.take u) sk hpre
+    have ht := tinv_exec cfg cbs (evs.take u) sk hpre
     have hlen : (evs.take u).length = u := by simp; omega
     have htu : timeAt evs u = eu.t := by simp [timeAt, heu]
     rw [step_caller_form sk eu c (by rw [hv]; rfl)] at hst
@@ -1414,6 +1414,12 @@ example : Accepted identCfg [0, 1] identHealRun ∧ evAt identHealRun 36 = some 
     evAt identHealRun 38 = some (.cb 1 1 false) ∧ callbacksOnceB [0, 1] identHealRun = true ∧
     stateNotOverwrittenB identHealRun = true := by
   unfold Accepted; decide
+-- reconnect_rate_limited with an identification: attempts at 4 and 27, the second on demand, 3.2 s later
+example : connectAt identHealRun 4 ≠ none ∧ connectAt identHealRun 27 = some true ∧ attemptsAtomicB identHealRun = true ∧
+    rateLimitedB identCfg identHealRun = true := by decide
+-- delays_honoured (window form) on the runs above
+example : DelaysHonoured protectedRun ∧ DelaysHonoured identMultiRun :=
+  ⟨delays_honoured findingCfgA [] _ (by unfold Accepted; decide), delays_honoured identCfg [] _ (by unfold Accepted; decide)⟩
 
 /-! ## facts about the constants taken from the source (re-generated on every run) -/
 
